@@ -614,6 +614,98 @@ theorem regGet_regAppend (r : List (Path × List ObjId)) (k : Path) (o : ObjId) 
         simp only [List.any_cons, hx1, ha, Bool.or_self, Bool.false_eq_true, ↓reduceIte, List.cons_append, List.lookup, hx2]
         exact ih
 
+/-! ### Keys of the reports of one file -/
+
+def Report.key : Report → Option TKey
+  | .succ p b _ => some (p, b)
+  | .fail => none
+
+theorem nsFinal_sub (ns : Namespace) : ∀ e ∈ nsFinal ns, e ∈ ns := by
+  induction ns with
+  | nil => simp [nsFinal]
+  | cons x rest ih =>
+    obtain ⟨n, o⟩ := x
+    intro e he
+    unfold nsFinal at he
+    by_cases h : rest.any (fun e => e.1 == n) = true
+    · simp only [h, ↓reduceIte] at he; exact List.mem_cons_of_mem _ (ih e he)
+    · simp only [h] at he
+      rcases List.mem_cons.1 he with rfl | he
+      · simp
+      · exact List.mem_cons_of_mem _ (ih e he)
+
+theorem nsFinal_keys_nodup (ns : Namespace) : ((nsFinal ns).map Prod.fst).Nodup := by
+  induction ns with
+  | nil => simp [nsFinal]
+  | cons x rest ih =>
+    obtain ⟨n, o⟩ := x
+    unfold nsFinal
+    by_cases h : rest.any (fun e => e.1 == n) = true
+    · simpa [h] using ih
+    · simp only [h, Bool.false_eq_true, ↓reduceIte, List.map_cons]
+      refine List.nodup_cons.2 ⟨?_, ih⟩
+      intro hm
+      obtain ⟨e, he, hen⟩ := List.mem_map.1 hm
+      exact h (List.any_eq_true.2 ⟨e, nsFinal_sub rest e he, by simp [hen]⟩)
+
+theorem prefix_keys (w : World) (path : Path) : ∀ (l : Namespace), (l.map Prod.fst).Nodup →
+    ((l.filterMap (prefixMember w path)).filterMap Report.key).Nodup ∧
+    ∀ k ∈ (l.filterMap (prefixMember w path)).filterMap Report.key, k.1 = path ∧ k.2 ∈ l.map Prod.fst := by
+  intro l
+  induction l with
+  | nil => intro _; simp
+  | cons x rest ih =>
+    intro hn
+    have hn' : x.1 ∉ rest.map Prod.fst ∧ (rest.map Prod.fst).Nodup := by
+      rw [List.map_cons] at hn; exact List.nodup_cons.1 hn
+    obtain ⟨h1, h2⟩ := ih hn'.2
+    cases hm : prefixMember w path x with
+    | none =>
+      simp only [List.filterMap_cons, hm]
+      exact ⟨h1, fun k hk => ⟨(h2 k hk).1, List.mem_cons_of_mem _ (h2 k hk).2⟩⟩
+    | some r =>
+      have hr : r = Report.succ path x.1 (match x.2 with | .fn id => id | .value => (0, 0)) ∨ True := Or.inr trivial
+      unfold prefixMember at hm
+      cases hx : x.2 with
+      | value => simp [hx] at hm
+      | fn id =>
+        simp only [hx] at hm
+        by_cases hc : (!isMarked w id && isTaskName x.1) = true
+        · simp only [hc, ↓reduceIte, Option.some.injEq] at hm
+          subst hm
+          simp only [List.filterMap_cons, prefixMember, hx, hc, ↓reduceIte, Report.key]
+          refine ⟨List.nodup_cons.2 ⟨?_, h1⟩, ?_⟩
+          · intro hk
+            have := (h2 _ hk).2
+            exact hn'.1 this
+          · intro k hk
+            rcases List.mem_cons.1 hk with rfl | hk
+            · simp
+            · exact ⟨(h2 k hk).1, List.mem_cons_of_mem _ (h2 k hk).2⟩
+        · simp [hc] at hm
+
+theorem dict_keys_pair (path : Path) : ∀ (d : Dict), (d.map Prod.fst).Nodup →
+    (d.map (fun e => ((path, e.1) : TKey))).Nodup := by
+  intro d
+  induction d with
+  | nil => intro _; simp
+  | cons x rest ih =>
+    intro hn
+    have hn' : x.1 ∉ rest.map Prod.fst ∧ (rest.map Prod.fst).Nodup := by
+      rw [List.map_cons] at hn; exact List.nodup_cons.1 hn
+    simp only [List.map_cons]
+    refine List.nodup_cons.2 ⟨?_, ih hn'.2⟩
+    intro hm
+    obtain ⟨e, he, heq⟩ := List.mem_map.1 hm
+    simp only [Prod.mk.injEq, true_and] at heq
+    exact hn'.1 (List.mem_map.2 ⟨e, he, heq⟩)
+
+theorem filterMap_key_map (path : Path) (d : Dict) :
+    (d.map (fun e => Report.succ path e.1 e.2)).filterMap Report.key = d.map (fun e => ((path, e.1) : TKey)) := by
+  induction d with
+  | nil => rfl
+  | cons x xs ih => simp [Report.key, ih]
+
 /-! ### Reports of a session -/
 
 theorem foldl_collectStep_reports (env : Env) (enum : List String → List String) : ∀ (files : List Path) (st : World × List Report) (r : Report),
